@@ -162,8 +162,10 @@ def gen_context(ctx, idx, tool):
     base = os.path.join(ctx.scratch, "%s%d" % (tool[0], idx))
     top = os.path.join(base, "outer", "ctx")
     os.makedirs(top)
-    names = ["a.log", "b.log", "keep.log", "x.txt", "y.txt", "README", "main.rs", "lib.rs", "out.o", "tmp1", "tmp2", "tmp10", "tmpAB", "secret.txt", "data.bin", "a+b", "build.rs", "name"]
-    dirs = ["build", "buildx", "src", "target", "docs", "src/sub", "src/sub/deep", "vendor", "docs/build", "src/name"]
+    names = ["a.log", "b.log", "keep.log", "x.txt", "y.txt", "README", "main.rs", "lib.rs", "out.o", "tmp1", "tmp2", "tmp10", "tmpAB", "secret.txt", "data.bin", "a+b", "build.rs", "name",
+             # near misses of the dotted patterns: another character where the pattern has a literal dot
+             "catalog", "dialog", "foo", "mainxrs", "dataxbin", "x-txt", "secret_txt"]
+    dirs = ["build", "buildx", "src", "target", "docs", "src/sub", "src/sub/deep", "vendor", "docs/build", "src/name", "docs_build", "src/subxdeep"]
     for d in rng.sample(dirs, rng.randint(3, len(dirs))):
         os.makedirs(os.path.join(top, d), exist_ok=True)
     alld = [top] + [os.path.join(dp, d) for dp, ds, _ in os.walk(top) for d in ds]
